@@ -13,3 +13,72 @@ package flight12
 //@ ensures unknown-flight: !ok ==> gen == nil && !retransmit
 //@ ensures awaiting-flights-retransmit: ok && f != Flight2 ==> retransmit
 //@ end
+
+// The cookie request itself: exactly one packet, a plaintext HelloVerifyRequest carrying the
+// issued cookie (state.Cookie) - no ServerHello, certificate or key exchange.
+
+//@ define HS(p) p.Record.Content.(*handshake.Handshake)
+//@ define HVR(p) HS(p).Message.(*handshake.MessageHelloVerifyRequest)
+
+//@ func flight2Generate
+//@ requires state: state != nil
+//@ ensures exactly-one-packet: len(result0) == 1 && result1 == nil && result2 == nil
+//@ ensures packet-present: result0[0] != nil && result0[0].Record != nil
+//@ ensures is-handshake-record: typeIs(result0[0].Record.Content, "*github.com/pion/dtls/v3/pkg/protocol/handshake.Handshake") && HS(result0[0]) != nil
+//@ ensures is-hello-verify-request: typeIs(HS(result0[0]).Message, "*github.com/pion/dtls/v3/pkg/protocol/handshake.MessageHelloVerifyRequest") && HVR(result0[0]) != nil
+//@ ensures carries-issued-cookie: sameSlice(HVR(result0[0]).Cookie, state.Cookie) && sameSlice(state.Cookie, old(state.Cookie))
+//@ ensures plaintext: !result0[0].ShouldEncrypt
+//@ ensures restarts-send-sequence: state.HandshakeSendSequence == 0
+//@ end
+
+// Issuing the cookie (server start): with hello verification on, a fresh 20-byte cookie filled by
+// crypto/rand.Read. (Call-event ghosts see only the last call; the server random drawn afterwards by
+// Random.Populate is the second rand.Read, so the cookie facts are stated for ncalls == 1.)
+
+//@ func flight0Generate
+//@ watch rand.Read
+//@ requires args: state != nil && state.Common != nil && cfg != nil
+//@ ensures cookie-issued: !cfg.InsecureSkipHelloVerify && result2 == nil ==> len(state.Cookie) == 20 && fresh(state.Cookie)
+//@ ensures cookie-random: !cfg.InsecureSkipHelloVerify ==> called("rand.Read") && (ncalls("rand.Read") == 1 ==> sameSlice(argBytes("rand.Read", 0), state.Cookie))
+//@ ensures rand-failure-aborts: !cfg.InsecureSkipHelloVerify && ncalls("rand.Read") == 1 && retErr("rand.Read", 1) != nil ==> result2 != nil
+//@ ensures second-draw-is-the-server-random: !cfg.InsecureSkipHelloVerify ==> ncalls("rand.Read") <= 2
+//@ ensures sends-nothing: result0 == nil && result1 == nil
+//@ end
+
+// Server start (Flight0): with hello verification enabled the answer to a first ClientHello is the
+// cookie request (Flight2) or, for a session the store knows, the abbreviated Flight4b - never the
+// full ServerHello/Certificate flight (Flight4) directly.
+
+// The session-store lookup is a user callback; it is assumed not to modify handshake state.
+//@ assume-pure HandshakeConfig.GetSession
+
+//@ func handleHelloResume
+//@ watch HandshakeConfig.GetSession
+//@ requires args: state != nil && state.Common != nil && cfg != nil && !isNil(cfg.Log)
+//@ requires store-configured: cfg.HasSessionStore ==> cfg.GetSession != nil
+//@ ensures outcomes: result0 == 0 || result0 == next || result0 == Flight4b
+//@ ensures resume-needs-known-session: result0 == Flight4b && next != Flight4b ==> called("HandshakeConfig.GetSession") && retErr("HandshakeConfig.GetSession", 2) == nil && !isNil(retBytes("HandshakeConfig.GetSession", 0))
+//@ ensures resume-needs-session-id: result0 == Flight4b && next != Flight4b ==> len(sessionID) > 0 && old(cfg.HasSessionStore)
+//@ ensures failure-has-alert: result0 == 0 && next != 0 ==> result1 != nil && result2 != nil
+//@ end
+
+//@ func flight0Parse
+//@ requires args: state != nil && cache != nil && cfg != nil
+//@ ensures cookie-first: !cfg.InsecureSkipHelloVerify ==> result0 == 0 || result0 == Flight2 || result0 == Flight4b
+//@ ensures never-full-flight-unverified: !cfg.InsecureSkipHelloVerify ==> result0 != Flight4
+//@ ensures outcomes: result0 == 0 || result0 == Flight2 || result0 == Flight4 || result0 == Flight4b
+//@ ensures cookie-kept: sameSlice(state.Cookie, old(state.Cookie))
+//@ end
+
+// Cookie check (Flight2): the server moves on to the ServerHello flight (Flight4) only after the
+// validator accepted the second ClientHello against the issued cookie.
+
+//@ func flight2Parse
+//@ watch ValidateHelloVerifyRequestResponse
+//@ requires args: state != nil && cache != nil && cfg != nil
+//@ ensures outcomes: result0 == 0 || result0 == Flight2 || result0 == Flight4 || result0 == Flight4b
+//@ ensures cookie-verified: !cfg.InsecureSkipHelloVerify && result0 == Flight4 ==> called("ValidateHelloVerifyRequestResponse") && retErr("ValidateHelloVerifyRequestResponse", 0) == nil
+//@ ensures checked-against-issued-cookie: !cfg.InsecureSkipHelloVerify && result0 == Flight4 ==> sameSlice(argBytes("ValidateHelloVerifyRequestResponse", 2), state.Cookie)
+//@ ensures cookie-kept: sameSlice(state.Cookie, old(state.Cookie))
+//@ ensures vacuity-probe: result1 == nil
+//@ end
